@@ -4,6 +4,7 @@ package main
 
 import (
 	"fmt"
+	"go/ast"
 	"go/token"
 	"go/types"
 	"math/big"
@@ -524,6 +525,19 @@ func (c *Ctx) lookupLocalName(name string, env *Env) *Val {
 	if len(uniq) == 1 {
 		return c.vals[last]
 	}
+	if len(uniq) == 0 && c.fn != nil {
+		// a variable of the function that is not assigned on the way to this point (e.g. a
+		// postcondition evaluated at an early return): any value of its type
+		for _, b := range c.fn.Blocks {
+			for _, in := range b.Instrs {
+				if d, ok := in.(*ssa.DebugRef); ok && !d.IsAddr {
+					if id, ok := d.Expr.(*ast.Ident); ok && id.Name == name {
+						return c.freshVal(d.X.Type(), "unassigned_"+name)
+					}
+				}
+			}
+		}
+	}
 	if len(uniq) > 1 {
 		// a loop-carried variable of an enclosing loop: its phi is the value in scope
 		var phi ssa.Value
@@ -1026,6 +1040,24 @@ func (c *Ctx) evalCall(e *Expr, env *Env) *Val {
 		}
 		c.declareFun("dyntype", []string{"Int"}, "Int")
 		return &Val{K: VScalar, T: boolT, S: sAnd(sNot(sEq(x.S, "0")), sEq(sApp("dyntype", x.S), c.typeTag(pt)))}
+	case "hasDynType":
+		// hasDynType(x, T): the interface value x holds a value whose dynamic type is exactly T
+		// (T may be a pointer type written *T)
+		x := arg(0)
+		if x == nil || len(e.Args) < 2 {
+			return nil
+		}
+		tn := qualName(e.Args[1])
+		if e.Args[1].Op == "un" && e.Args[1].Name == "*" && len(e.Args[1].Args) == 1 {
+			tn = "*" + qualName(e.Args[1].Args[0])
+		}
+		t := c.resolveType(tn, env)
+		if t == nil {
+			c.specErr("hasDynType: unknown type %s", tn)
+			return nil
+		}
+		c.declareFun("dyntype", []string{"Int"}, "Int")
+		return &Val{K: VScalar, T: boolT, S: sAnd(sNot(sEq(x.S, "0")), sEq(sApp("dyntype", x.S), c.typeTag(t)))}
 	case "resultOf":
 		// resultOf(x, "callee pattern"): the value x is (on this path) the result of a call
 		// to a matching callee - provenance, decided by data flow, not by value equality
